@@ -24,7 +24,7 @@ TESTDATA_BY_FORMAT = {
 }
 
 REPLACEMENTS = [("empty", ""), ("word", "abc"), ("zero", "0"), ("negative", "-1"), ("huge", "99999999999999999999"),
-                ("hugef", "1e308"), ("nan", "nan"), ("inf", "inf"), ("overflow", "1e999"), ("minus", None)]
+                ("hugef", "1e308"), ("nan", "nan"), ("inf", "inf"), ("overflow", "1e999"), ("hugeint", "1" + "0" * 400), ("minus", None)]
 
 DOCUMENTED = ("StructureFormatError", "NotImplementedError")
 
@@ -258,8 +258,17 @@ def _alarm(signum, frame):
     raise _Timeout()
 
 
+def parser_chain(tb):
+    """function names of the frames inside diffpy/structure/parsers, outermost first, joined by '>'"""
+    return ">".join(fr.name for fr in tb if "/diffpy/structure/parsers/" in fr.filename)
+
+
 def classify(exc):
-    """(kind, site): kind is 'StructureFormatError', 'NotImplementedError' or 'escape:<qualified type>'."""
+    """(kind, site, raised_at): kind is 'StructureFormatError', 'NotImplementedError' or 'escape:<qualified type>'.
+
+    site = innermost frame inside parsers/ as file:function:line:chain; raised_at = innermost frame overall; for a
+    StructureFormatError raised by a handler, raised_at also carries the translated exception:
+    '<at><-<type>@<innermost>@<innermost parsers frame>@<parser chain>'."""
     from diffpy.structure.structureerrors import StructureFormatError
     t = type(exc)
     tb = traceback.extract_tb(exc.__traceback__)
@@ -270,8 +279,19 @@ def classify(exc):
             psite = fr
     site = ""
     if psite is not None:
-        site = "%s:%s:%d" % (os.path.basename(psite.filename), psite.name, psite.lineno)
+        site = "%s:%s:%d:%s" % (os.path.basename(psite.filename), psite.name, psite.lineno, parser_chain(tb))
     raised_at = "%s:%s:%d" % (os.path.basename(inner.filename), inner.name, inner.lineno) if inner else ""
+    if isinstance(exc, StructureFormatError) and exc.__context__ is not None:
+        # the handler re-raised: remember what was translated (kind and where it came from)
+        c = exc.__context__
+        ctb = traceback.extract_tb(c.__traceback__)
+        cq = type(c).__name__ if type(c).__module__ == "builtins" else "%s.%s" % (type(c).__module__, type(c).__name__)
+        cat = "%s:%s:%d" % (os.path.basename(ctb[-1].filename), ctb[-1].name, ctb[-1].lineno) if ctb else ""
+        cps = ""
+        for fr in ctb:
+            if "/diffpy/structure/parsers/" in fr.filename:
+                cps = "%s:%s:%d" % (os.path.basename(fr.filename), fr.name, fr.lineno)
+        raised_at = "%s<-%s@%s@%s@%s" % (raised_at, cq, cat, cps, parser_chain(ctb))
     if t is StructureFormatError:
         return "StructureFormatError", site, raised_at
     if isinstance(exc, StructureFormatError):
